@@ -134,8 +134,8 @@ class C20:
     level = 'exploration'
     rule = ('cases = (form, operand type T, second type U, operand values, repetition count N in {1,7,8,9,64,100000}): ~45 expression/statement forms in discard contexts (expression '
             'statement, comma operands, void cast, unused call / ?: / statement expression, for-clauses, unused comparisons, casts, member/index/deref reads) and value contexts (chained '
-            'assignment, op= chains, ++/--, nested and variadic calls, conditional operands, long double round trips, long double operands pending across 3..12 nested operations and across calls) over 16 types incl. long double and three by-value struct types, plus alloca. '
-            'Invariants read by assembly probes from the same frame before and after the loop: rsp unchanged (alloca: bounded decrease), x87 TOP/tag word unchanged and empty; a long double '
+            'assignment, op= chains, ++/--, nested and variadic calls, conditional operands, long double round trips, long double operands pending across 3..12 nested operations and across calls) over 16 types incl. long double and three by-value struct types, plus alloca and VLA forms, also evaluated while operands of the enclosing expression or call are pending on the stack (the pending values must survive the allocation). '
+            'Invariants read by assembly probes from the same frame before and after the loop: rsp unchanged (alloca and VLA forms: a decrease of at most 16 KiB per iteration - the largest block is under 5 KiB), x87 TOP/tag word unchanged and empty; a long double '
             'expression evaluated afterwards and every printed value must equal gcc and clang. non-trivial = result type is long double or an aggregate, or the form pushes a temporary, and N >= 8; '
             'distinct by (form, T, U, N).')
     assumptions = ['gcc/clang leave rsp and the x87 stack balanced around a statement (they print the same probe values before and after)',
@@ -167,7 +167,7 @@ class C20:
                 'for (long it = 0; it < %d; it++) { %s }' % (N, stmt),
                 'long s1 = sp_probe(); int t1 = x87_probe();']
         if dyn:
-            body.append('printf("@ sp %%d x87 %%x %%x\\n", (int)(s0 - s1 >= 0 && s0 - s1 <= %dL * 2048), t0, t1);' % N)
+            body.append('printf("@ sp %%d x87 %%x %%x\\n", (int)(s0 - s1 >= 0 && s0 - s1 <= %dL * 16384), t0, t1);' % N)
         else:
             body.append('printf("@ sp %ld x87 %x %x\\n", s1 - s0, t0, t1);')
         body.append('{ long double chk = ld1 * ld2 + ld3 - (long double)q * 0; printf("@ chk %Lg %d\\n", chk, (int)(k + q * 0)); }')
